@@ -70,12 +70,60 @@ def static_part(chk):
         chk.broken.append(("correspondence", "static-arrangements[model build]", {"detail": str(e)[-1500:]}))
 
 
+def reject_part(chk):
+    """directed histories through the real API: an update is started while the previous image is copied but not yet acknowledged,
+       the previous image is then rejected, the new session completes - the bootloader query must name exactly the new image and
+       the fallback query the last confirmed one, at every ring position (0..3 confirmed updates before, 4 / 5 / 6 slots)"""
+    import random
+    from . import session, ts004
+    rnd = random.Random(chk.seed + 12)
+    scns = []
+    def full(t, sz, n):
+        img = ts004.make_image(rnd, n, sz)
+        t.add("start %d %d" % (sz, n))
+        return [session.seg_op(img, n, sz, i, False) for i in range(1, n + 1)]
+    for ns in (4, 5, 6):
+        for pre in range(0, 4):
+            for sz, n in ((8, 2), (40, 3)):
+                t = session.Scn(ns, 17664, 192)
+                m = {"kind": "reject-while-next-in-progress", "N": ns, "pre": pre}
+                for _ in range(pre + 1):                                   # confirmed updates; the last one is A
+                    for o in full(t, sz, n): t.add(o)
+                    m["doneA"] = t.add("done"); t.add("bl"); t.add("markbl int"); t.add("bl"); t.add("markbl ok")
+                for o in full(t, sz, n): t.add(o)                          # B: completed and copied, not acknowledged
+                t.add("done"); t.add("bl"); t.add("markbl int")
+                segs = full(t, sz, n)                                      # C started
+                t.add("bl"); t.add("markbl bad")                           # B rejected (if start left it in place)
+                m["bl_mid"] = t.add("bl")
+                for o in segs: t.add(o)
+                m["doneC"] = t.add("done"); m["bl"] = t.add("bl"); m["fb"] = t.add("fb"); t.add("hdrs")
+                t.meta = m
+                scns.append(t)
+    lines, impl, outs = session.run(chk, scns, stream="session-reject")
+    nt = []
+    for s, l, raw, out in zip(scns, lines, impl, outs):
+        if len(out) != len(s.ops):
+            chk.failures.append(core.Failure("harness produced no / truncated result", "session", "matrix", l, raw, key="crash")); break
+        m = s.meta
+        hA, hC, mid = out[m["doneA"]][0], out[m["doneC"]][0], out[m["bl_mid"]][0]
+        if not (hA.startswith("ok:") and hC.startswith("ok:") and mid.startswith("idle")):
+            continue                                                       # some other image still awaits the bootloader: outside the proviso
+        iA, iC = hA[3:].split("[")[0], hC[3:].split("[")[0]
+        nt.append(l)
+        if not out[m["bl"]][0].startswith("inc:" + iC):
+            chk.failures.append(core.Failure("update completed in slot %s (previous image rejected): bootloader query answers %s, not copy-incomplete for slot %s" % (iC, out[m["bl"]][0][:12], iC), "session", "matrix", l, raw[:2000], key="c12"))
+        if not out[m["fb"]][0].startswith("some:" + iA):
+            chk.failures.append(core.Failure("fallback query answers %s, the last confirmed image is in slot %s" % (out[m["fb"]][0][:12], iA), "session", "matrix", l, raw[:2000], key="c12"))
+    chk.note_cases("session-reject", lines, nt, sample_n=1, dist={"histories": len(lines), "judged": len(nt)})
+
+
 def run(chk):
     chk.prove()
+    reject_part(chk)
     c05.closure_part(chk, ("c12",))
     static_part(chk)
     chk.cov["exhaustive"] = False          # the closure is exhaustive where it closes; the static arrangements are sampled
     return chk.finish(level="proof",
-        rule="static-arrangements: legal headers at arbitrary positions of 4 / 5 / 6-slot rings (rotated runs of consecutive numbers, some slots blank; at most one firmware image awaiting the bootloader; parity headers in progress / aborted / complete): both queries vs the answer the headers prescribe; ring-closure (see C05): in every reachable (headers, ghost) state bl_boot_status and fallback_firmware of the real SlotManager are compared with the abstract lifecycle; non-trivial/distinct = distinct states",
+        rule="session-reject: real-API histories (0..3 confirmed updates, next update started while the previous image is copied but unacknowledged, previous image rejected, new session completed; 4 / 5 / 6 slots): bootloader query = copy incomplete for the new slot, fallback = last confirmed; static-arrangements: legal headers at arbitrary positions of 4 / 5 / 6-slot rings (rotated runs of consecutive numbers, some slots blank; at most one firmware image awaiting the bootloader; parity headers in progress / aborted / complete): both queries vs the answer the headers prescribe; ring-closure (see C05): in every reachable (headers, ghost) state bl_boot_status and fallback_firmware of the real SlotManager are compared with the abstract lifecycle; non-trivial/distinct = distinct states",
         trusted=core.TRUSTED_COMMON + ["C12: proviso enforced along the whole history: completion is only explored when no other image awaits the bootloader",
                                         "an erased slot no longer holds an update (start and recovery's remediation may erase an awaiting-copy image; DESIGN.md section 8)"])
